@@ -11,10 +11,10 @@ package simrt
 
 import (
 	"fmt"
-	"hash/fnv"
 	"runtime"
 	"runtime/debug"
 	"sort"
+	"strconv"
 	"sync"
 	"sync/atomic"
 	"testing/synctest"
@@ -75,9 +75,9 @@ type Config struct {
 	MaxSteps     int           // scheduling-step budget; exhausting it is "inconclusive", never a violation
 	MaxIdle      time.Duration // cumulative simulated time spent with *no runnable task* (forced waits) after which a run with unfinished workload tasks is a hang. Time that the tape lets pass while tasks are runnable (the stalled-node fault) does not count: nothing may be demanded of an unfair schedule.
 	TimeSteps    []time.Duration
-	AdvanceDenom int // with runnable tasks, let time pass instead with probability 1/AdvanceDenom per step (0: never)
-	YieldDenom   int // at a sync point the holder parks with probability 1/YieldDenom (1: always)
-	PlainRange   int // plain-point preemption: next countdown drawn from [0,PlainRange), 0 = never again (0: disabled)
+	AdvanceDenom int  // with runnable tasks, let time pass instead with probability 1/AdvanceDenom per step (0: never)
+	YieldDenom   int  // at a sync point the holder parks with probability 1/YieldDenom (1: always)
+	PlainRange   int  // plain-point preemption: next countdown drawn from [0,PlainRange), 0 = never again (0: disabled)
 	Foreign      bool // control goroutines created by uninstrumented code once they reach an instrumented point
 	// PCT > 0 selects the priority-based strategy (Burckhardt et al., PCT): every task gets a random
 	// priority when it is created, the runnable task with the highest priority always runs, and at
@@ -105,6 +105,7 @@ const (
 	Fatal
 )
 
+//go:norace
 func (k OutcomeKind) String() string {
 	return [...]string{"done", "deadlock", "hang", "budget", "fatal"}[k]
 }
@@ -124,7 +125,7 @@ type PanicInfo struct {
 
 type shadowMu struct {
 	writer  *Task
-	readers map[*Task]int
+	readers readerSet
 }
 
 type shadowOnce struct {
@@ -139,16 +140,16 @@ type Sim struct {
 	Tape  *Tape
 	cfg   Config
 	tasks []*Task
-	byG   map[uintptr]*Task
+	byG   umap[*Task]
 	cur   *Task
-	curG  atomic.Uintptr
+	curG  gword
 	rootG uintptr
 	wake  chan struct{}
 	last  *Task
 
-	mutexes map[unsafe.Pointer]*shadowMu
-	onces   map[unsafe.Pointer]*shadowOnce
-	ptrIDs  map[unsafe.Pointer]int
+	mutexes umap[*shadowMu]
+	onces   umap[*shadowOnce]
+	ptrIDs  umap[int]
 
 	aborting atomic.Bool
 	pcount   int
@@ -157,7 +158,7 @@ type Sim struct {
 	seqAtStep    uint64
 	pctChange    []int
 	pctLow       int
-	holdSeen     map[uint32]bool
+	holdSeen     *umap[bool]
 	holdPoint    uint32
 	holdReleased bool
 
@@ -173,6 +174,9 @@ type Sim struct {
 	seq          uint64
 	Panics       []PanicInfo
 	fatal        string
+
+	// race build: the detector's report count when the run started and when the scheduler returned
+	RaceErrsAtStart, RaceErrsAtEnd int
 
 	// statistics
 	Switches   int
@@ -198,9 +202,28 @@ type TraceEv struct {
 var active atomic.Pointer[Sim]
 
 // Active returns the running simulation or nil.
+//
+//go:norace
 func Active() *Sim { return active.Load() }
 
+// lock/unlock guard the task table. The lock is simulator machinery: the race detector must not take
+// it for synchronisation of the code under test (see RaceEnabled).
+//
+//go:norace
+func (s *Sim) lock() { raceOff(); s.mu.Lock() }
+
+//go:norace
+func (s *Sim) unlock() { s.mu.Unlock(); raceOn() }
+
+// Addresses that carry the harness-level happens-before edges of a race build: opTok orders the
+// operations of the workload as the recorded history orders them (an operation that was invoked after
+// another one returned happens after it: the harness hands objects from task to task only that way),
+// doneTok orders everything a finished task did before whoever waited for it.
+var opTok, doneTok int
+
 // New creates a simulation. It must be called from the root goroutine of a synctest bubble.
+//
+//go:norace
 func New(tape *Tape, cfg Config) *Sim {
 	if cfg.MaxSteps == 0 {
 		cfg.MaxSteps = 20000
@@ -213,11 +236,7 @@ func New(tape *Tape, cfg Config) *Sim {
 	}
 	s := &Sim{
 		Tape: tape, cfg: cfg,
-		byG:        map[uintptr]*Task{},
 		wake:       make(chan struct{}, 1),
-		mutexes:    map[unsafe.Pointer]*shadowMu{},
-		onces:      map[unsafe.Pointer]*shadowOnce{},
-		ptrIDs:     map[unsafe.Pointer]int{},
 		rootG:      getg(),
 		start:      time.Now(),
 		SwitchPair: map[[2]uint32]struct{}{},
@@ -230,7 +249,7 @@ func New(tape *Tape, cfg Config) *Sim {
 		s.drawPlain()
 	}
 	if cfg.HoldOrdinal > 0 {
-		s.holdSeen = map[uint32]bool{}
+		s.holdSeen = &umap[bool]{}
 		s.cfg.YieldDenom = 1
 	}
 	if cfg.PCT > 0 {
@@ -242,10 +261,12 @@ func New(tape *Tape, cfg Config) *Sim {
 		}
 		s.cfg.YieldDenom = 1
 	}
+	s.RaceErrsAtStart = RaceErrors()
 	active.Store(s)
 	return s
 }
 
+//go:norace
 func (s *Sim) drawPlain() {
 	v := s.Tape.Draw(StSched, s.cfg.PlainRange)
 	if v == 0 {
@@ -256,18 +277,59 @@ func (s *Sim) drawPlain() {
 }
 
 // Now returns simulated time since the start of the run.
+//
+//go:norace
 func (s *Sim) Now() time.Duration { return time.Since(s.start) }
 
 // Stamp returns the next global event sequence number. It must only be called by the token holder or
 // by the root goroutine, which makes the numbering a deterministic total order.
+//
+//go:norace
 func (s *Sim) Stamp() uint64 {
 	s.seq++
+	if RaceEnabled {
+		if t := s.cur; t != nil && t.Workload && t.g == getg() {
+			raceAcquire(unsafe.Pointer(&opTok))
+			raceReleaseMerge(unsafe.Pointer(&opTok))
+		}
+	}
 	return s.seq
 }
 
+// HarnessAcquire and HarnessRelease bracket a piece of harness bookkeeping done by a workload task (a
+// history line, a counter): in a race build they order such pieces among the workload tasks the way
+// Stamp orders operations, so that the instrumented library code they call (fmt, maps, hashes) does
+// not look racy on harness state. Goroutines of the code under test that call back into harness stubs
+// get no such edges: nothing must order them that the code under test did not order itself.
+//
+//go:norace
+func HarnessAcquire() {
+	if RaceEnabled {
+		if s := active.Load(); s != nil {
+			if t := s.cur; t != nil && t.Workload && t.g == getg() {
+				raceAcquire(unsafe.Pointer(&opTok))
+			}
+		}
+	}
+}
+
+//go:norace
+func HarnessRelease() {
+	if RaceEnabled {
+		if s := active.Load(); s != nil {
+			if t := s.cur; t != nil && t.Workload && t.g == getg() {
+				raceReleaseMerge(unsafe.Pointer(&opTok))
+			}
+		}
+	}
+}
+
 // Draw consumes an environment choice. Token holder or root only.
+//
+//go:norace
 func (s *Sim) Draw(n int) int { return s.Tape.Draw(StEnv, n) }
 
+//go:norace
 func goid() uint64 {
 	var buf [64]byte
 	n := runtime.Stack(buf[:], false)
@@ -281,63 +343,76 @@ func goid() uint64 {
 	return id
 }
 
+//go:norace
 func (s *Sim) newTask(name string, workload bool) *Task {
 	t := &Task{Name: name, Workload: workload, grant: make(chan struct{}), state: stParked}
-	s.mu.Lock()
+	s.lock()
 	t.ID = len(s.tasks)
 	t.prio = -1 // drawn by the scheduler when the task is first considered (token discipline for the tape)
 	s.tasks = append(s.tasks, t)
-	s.mu.Unlock()
+	s.unlock()
 	return t
 }
 
+//go:norace
 func (s *Sim) launch(t *Task, f func()) {
 	go func() {
 		g := getg()
-		s.mu.Lock()
+		s.lock()
 		t.g = g
-		s.byG[g] = t
-		s.mu.Unlock()
+		s.byG.put(g, t)
+		s.unlock()
 		defer s.exit(t, g)
+		raceOff()
 		<-t.grant
+		raceOn()
 		if s.aborting.Load() {
 			return
 		}
 		f()
+		raceReleaseMerge(unsafe.Pointer(&doneTok))
 	}()
 }
 
+//go:norace
 func (s *Sim) exit(t *Task, g uintptr) {
 	if r := recover(); r != nil {
-		s.mu.Lock()
-		s.Panics = append(s.Panics, PanicInfo{Task: t.Name, Value: fmt.Sprint(r), Stack: string(debug.Stack())})
-		s.mu.Unlock()
+		pi := PanicInfo{Task: t.Name, Value: fmt.Sprint(r), Stack: string(debug.Stack())}
+		s.lock()
+		s.Panics = append(s.Panics, pi)
+		s.unlock()
 	}
-	s.mu.Lock()
+	s.lock()
 	t.state = stDone
-	if s.byG[g] == t {
-		delete(s.byG, g)
+	if s.byG.get(g) == t {
+		s.byG.del(g)
 	}
 	if s.cur == t {
 		s.cur = nil
 		s.curG.Store(0)
 	}
-	s.mu.Unlock()
+	s.unlock()
 }
 
 // Spawn starts a workload task. The run ends when every workload task has finished.
+//
+//go:norace
 func (s *Sim) Spawn(name string, f func()) {
 	t := s.newTask(name, true)
 	s.launch(t, f)
 }
 
 // SpawnBG starts a background (non-workload) harness task.
+//
+//go:norace
 func (s *Sim) SpawnBG(name string, f func()) {
 	t := s.newTask(name, false)
 	s.launch(t, f)
 }
 
 // Go replaces the go statement in instrumented code.
+//
+//go:norace
 func Go(id uint32, f func()) {
 	s := active.Load()
 	if s == nil || s.aborting.Load() {
@@ -358,6 +433,8 @@ func Go(id uint32, f func()) {
 
 // arrive returns the calling task if it is simulated, after making sure it holds the token.
 // nil means: not simulated, perform the original operation directly.
+//
+//go:norace
 func (s *Sim) arrive(id uint32) *Task {
 	g := getg()
 	if s.curG.Load() == g {
@@ -366,6 +443,7 @@ func (s *Sim) arrive(id uint32) *Task {
 	return s.arriveSlow(g, id)
 }
 
+//go:norace
 func (s *Sim) arriveSlow(g uintptr, id uint32) *Task {
 	if g == s.rootG {
 		return nil
@@ -373,51 +451,52 @@ func (s *Sim) arriveSlow(g uintptr, id uint32) *Task {
 	if s.aborting.Load() {
 		// aborted run: a task that is still executing instrumented code exits here; its deferred
 		// calls (which re-enter simrt) pass through.
-		s.mu.Lock()
-		t := s.byG[g]
-		s.mu.Unlock()
+		s.lock()
+		t := s.byG.get(g)
+		s.unlock()
 		if t != nil && !t.exiting {
 			t.exiting = true
 			runtime.Goexit()
 		}
 		return nil
 	}
-	s.mu.Lock()
-	t := s.byG[g]
+	s.lock()
+	t := s.byG.get(g)
 	if t != nil && t.Foreign && t.goid != goid() {
 		t = nil // the g was recycled for another foreign goroutine
 	}
 	if t == nil {
 		if !s.cfg.Foreign {
-			s.mu.Unlock()
+			s.unlock()
 			return nil
 		}
 		t = &Task{Name: "foreign", Foreign: true, g: g, goid: goid(), grant: make(chan struct{}), state: stBlocked}
 		t.ID = len(s.tasks)
-		t.Name = fmt.Sprintf("foreign%d", t.ID)
+		t.Name = "foreign" + strconv.Itoa(t.ID) // (no fmt under the simulator's lock: its printer pool would look shared to the race detector)
 		s.tasks = append(s.tasks, t)
-		s.byG[g] = t
+		s.byG.put(g, t)
 	}
-	s.mu.Unlock()
+	s.unlock()
 	// a task that lost the token while blocked in the runtime (or never had it): queue up for it
 	s.park(t, id, wkNone, nil)
 	return t
 }
 
+//go:norace
 func (s *Sim) park(t *Task, id uint32, wk waitKind, want unsafe.Pointer) {
 	if s.aborting.Load() {
 		s.goexit(t)
 		return
 	}
-	s.mu.Lock()
+	s.lock()
 	t.state = stParked
 	t.point = id
 	t.wk = wk
 	t.want = want
 	if s.holdSeen != nil && wk == wkNone && id != 0 {
-		if s.holdPoint == 0 && !s.holdSeen[id] {
-			s.holdSeen[id] = true
-			if len(s.holdSeen) == s.cfg.HoldOrdinal {
+		if s.holdPoint == 0 && !s.holdSeen.has(uintptr(id)) {
+			s.holdSeen.put(uintptr(id), true)
+			if s.holdSeen.len() == s.cfg.HoldOrdinal {
 				s.holdPoint = id
 			}
 		}
@@ -429,17 +508,20 @@ func (s *Sim) park(t *Task, id uint32, wk waitKind, want unsafe.Pointer) {
 		s.cur = nil
 		s.curG.Store(0)
 	}
-	s.mu.Unlock()
+	s.unlock()
+	raceOff()
 	select {
 	case s.wake <- struct{}{}:
 	default:
 	}
 	<-t.grant
+	raceOn()
 	if s.aborting.Load() {
 		s.goexit(t)
 	}
 }
 
+//go:norace
 func (s *Sim) goexit(t *Task) {
 	if t.exiting {
 		return
@@ -451,6 +533,8 @@ func (s *Sim) goexit(t *Task) {
 const maxInline = 64
 
 // syncPoint is a scheduling point before a synchronisation operation.
+//
+//go:norace
 func (s *Sim) syncPoint(t *Task, id uint32) {
 	s.NSync++
 	if s.cfg.YieldDenom > 1 && t.inline < maxInline {
@@ -465,6 +549,8 @@ func (s *Sim) syncPoint(t *Task, id uint32) {
 }
 
 // post is called after a potentially blocking runtime operation returned.
+//
+//go:norace
 func (s *Sim) post(t *Task, id uint32) {
 	if s.curG.Load() == t.g {
 		return
@@ -473,6 +559,8 @@ func (s *Sim) post(t *Task, id uint32) {
 }
 
 // P is a plain point: inserted before every statement of instrumented code.
+//
+//go:norace
 func P(id uint32) {
 	s := active.Load()
 	if s == nil {
@@ -494,6 +582,8 @@ func P(id uint32) {
 
 // Sync is a sync point: inserted before statements that perform atomic operations, timer resets,
 // context cancellations and the like.
+//
+//go:norace
 func Sync(id uint32) {
 	s := active.Load()
 	if s == nil {
@@ -505,6 +595,8 @@ func Sync(id uint32) {
 }
 
 // Yield is an unconditional scheduling point for hand-written harness code.
+//
+//go:norace
 func Yield(id uint32) {
 	s := active.Load()
 	if s == nil {
@@ -516,6 +608,8 @@ func Yield(id uint32) {
 }
 
 // Woke must follow a blocking operation performed by hand-written harness code.
+//
+//go:norace
 func Woke(id uint32) {
 	s := active.Load()
 	if s == nil {
@@ -525,6 +619,8 @@ func Woke(id uint32) {
 }
 
 // Sleep replaces time.Sleep.
+//
+//go:norace
 func Sleep(d time.Duration, id uint32) {
 	s := active.Load()
 	if s == nil {
@@ -542,24 +638,27 @@ func Sleep(d time.Duration, id uint32) {
 }
 
 // Fail records a fatal harness-detected condition (checked by the scheduler after the current step).
+//
+//go:norace
 func (s *Sim) Fail(msg string) {
-	s.mu.Lock()
+	s.lock()
 	if s.fatal == "" {
 		s.fatal = msg
 	}
-	s.mu.Unlock()
+	s.unlock()
 }
 
+//go:norace
 func (s *Sim) enabled(t *Task) bool {
 	switch t.wk {
 	case wkMutexW:
-		sh := s.mutexes[t.want]
-		return sh == nil || (sh.writer == nil && len(sh.readers) == 0)
+		sh := s.mutexes.get(up(t.want))
+		return sh == nil || (sh.writer == nil && sh.readers.len() == 0)
 	case wkMutexR:
-		sh := s.mutexes[t.want]
+		sh := s.mutexes.get(up(t.want))
 		return sh == nil || sh.writer == nil
 	case wkOnce:
-		sh := s.onces[t.want]
+		sh := s.onces.get(up(t.want))
 		return sh == nil || !sh.running
 	case wkJoin:
 		for _, o := range s.tasks {
@@ -573,36 +672,41 @@ func (s *Sim) enabled(t *Task) bool {
 }
 
 // JoinOthers parks the calling workload task until every other workload task has finished.
+//
+//go:norace
 func (s *Sim) JoinOthers(id uint32) {
 	t := s.arrive(id)
 	if t == nil {
 		return
 	}
 	s.park(t, id, wkJoin, nil)
+	raceAcquire(unsafe.Pointer(&doneTok))
 }
 
 // lockCycle looks for a cycle in the shadow wait-for graph.
+//
+//go:norace
 func (s *Sim) lockCycle() string {
 	holderOf := func(t *Task) []*Task {
 		switch t.wk {
 		case wkMutexW:
-			if sh := s.mutexes[t.want]; sh != nil {
+			if sh := s.mutexes.get(up(t.want)); sh != nil {
 				var hs []*Task
 				if sh.writer != nil {
 					hs = append(hs, sh.writer)
 				}
-				for r := range sh.readers {
+				for _, r := range sh.readers.t {
 					hs = append(hs, r)
 				}
 				sort.Slice(hs, func(i, j int) bool { return hs[i].ID < hs[j].ID })
 				return hs
 			}
 		case wkMutexR:
-			if sh := s.mutexes[t.want]; sh != nil && sh.writer != nil {
+			if sh := s.mutexes.get(up(t.want)); sh != nil && sh.writer != nil {
 				return []*Task{sh.writer}
 			}
 		case wkOnce:
-			if sh := s.onces[t.want]; sh != nil && sh.running && sh.owner != nil {
+			if sh := s.onces.get(up(t.want)); sh != nil && sh.running && sh.owner != nil {
 				return []*Task{sh.owner}
 			}
 		}
@@ -653,6 +757,8 @@ const forceAdvanceEvery = 500
 // Settle keeps scheduling after the workload has finished so that background tasks (drains, final
 // exports) can come to rest: it returns when nothing is runnable and nothing wakes up within quiet
 // simulated time, or after maxSteps further steps.
+//
+//go:norace
 func (s *Sim) Settle(maxSteps int, quiet time.Duration) Outcome {
 	s.settling = true
 	s.settleQuiet = quiet
@@ -662,10 +768,23 @@ func (s *Sim) Settle(maxSteps int, quiet time.Duration) Outcome {
 
 // Run drives the simulation until every workload task has finished or the run is cut short.
 // It must be called from the bubble's root goroutine.
+//
+//go:norace
 func (s *Sim) Run() Outcome {
+	raceOff()
+	out := s.run()
+	raceOn()
+	raceAcquire(unsafe.Pointer(&doneTok))
+	raceAcquire(unsafe.Pointer(&opTok))
+	s.RaceErrsAtEnd = RaceErrors()
+	return out
+}
+
+//go:norace
+func (s *Sim) run() Outcome {
 	for {
 		synctest.Wait()
-		s.mu.Lock()
+		s.lock()
 		if s.cur != nil && s.cur.state == stRunning {
 			s.cur.state = stBlocked
 			s.cur = nil
@@ -673,12 +792,12 @@ func (s *Sim) Run() Outcome {
 		}
 		if len(s.Panics) > 0 {
 			p := s.Panics[0]
-			s.mu.Unlock()
+			s.unlock()
 			return Outcome{Fatal, "panic in " + p.Task + ": " + p.Value}
 		}
 		if s.fatal != "" {
 			f := s.fatal
-			s.mu.Unlock()
+			s.unlock()
 			return Outcome{Fatal, f}
 		}
 		var cands []*Task
@@ -708,25 +827,25 @@ func (s *Sim) Run() Outcome {
 			}
 		}
 		if alive == 0 && !s.settling {
-			s.mu.Unlock()
+			s.unlock()
 			return Outcome{Done, ""}
 		}
 		if s.settling && (s.Steps >= s.settleEnd || s.Steps >= s.cfg.MaxSteps) {
-			s.mu.Unlock()
+			s.unlock()
 			return Outcome{Done, "settle budget"}
 		}
 		if cyc := s.lockCycle(); cyc != "" {
-			s.mu.Unlock()
+			s.unlock()
 			return Outcome{Deadlock, cyc}
 		}
 		if s.Steps >= s.cfg.MaxSteps {
-			s.mu.Unlock()
+			s.unlock()
 			return Outcome{Budget, fmt.Sprintf("step budget %d exhausted", s.cfg.MaxSteps)}
 		}
 		now := s.Now()
 		if s.Idle >= s.cfg.MaxIdle {
 			d := s.describeAlive()
-			s.mu.Unlock()
+			s.unlock()
 			return Outcome{Hang, fmt.Sprintf("workload unfinished after %v of forced idle time (%v simulated): %s", s.Idle, now, d)}
 		}
 		s.Steps++
@@ -743,7 +862,7 @@ func (s *Sim) Run() Outcome {
 		adv := time.Duration(-1)
 		if len(cands) == 0 && s.settling {
 			s.Advances++
-			s.mu.Unlock()
+			s.unlock()
 			select {
 			case <-s.wake:
 			default:
@@ -779,7 +898,7 @@ func (s *Sim) Run() Outcome {
 		if adv >= 0 {
 			s.sinceAdvance = 0
 			s.Advances++
-			s.mu.Unlock()
+			s.unlock()
 			select {
 			case <-s.wake:
 			default:
@@ -797,14 +916,14 @@ func (s *Sim) Run() Outcome {
 				// A starved runnable task (PCT priorities, an adversarial replay tape) means nothing
 				// can be demanded of this schedule.
 				fair := true
-				s.mu.Lock()
+				s.lock()
 				for _, t := range s.tasks {
 					if t.state == stParked && s.enabled(t) && t.steps == t.stepsAtForce {
 						fair = false
 					}
 					t.stepsAtForce = t.steps
 				}
-				s.mu.Unlock()
+				s.unlock()
 				if fair || len(cands) == 0 {
 					s.Idle += s.Now() - before
 				}
@@ -876,9 +995,16 @@ func (s *Sim) Run() Outcome {
 				from = s.last.point
 			}
 			s.SwitchPair[[2]uint32{from, pick.point}] = struct{}{}
-			h := fnv.New64a()
-			fmt.Fprintf(h, "%x|%s|%d", s.sig, roleOf(pick.Name), pick.point)
-			s.sig = h.Sum64()
+			// FNV-1a over (previous signature, role, point); no fmt here: the scheduler runs with the race
+			// detector's synchronisation tracking off, where pooled printers would look shared
+			h := s.sig
+			for _, c := range []byte(roleOf(pick.Name)) {
+				h = (h ^ uint64(c)) * 1099511628211
+			}
+			for i := 0; i < 4; i++ {
+				h = (h ^ uint64(byte(pick.point>>(8*i)))) * 1099511628211
+			}
+			s.sig = (h ^ 0xff) * 1099511628211
 		}
 		s.PointsHit[pick.point] = struct{}{}
 		s.last = pick
@@ -888,11 +1014,12 @@ func (s *Sim) Run() Outcome {
 		s.cur = pick
 		s.curG.Store(pick.g)
 		s.traceEv(TraceEv{Step: s.Steps, Task: pick.Name, Point: pick.point, NowNs: int64(now)})
-		s.mu.Unlock()
+		s.unlock()
 		pick.grant <- struct{}{}
 	}
 }
 
+//go:norace
 func roleOf(name string) string {
 	// strip trailing digits so that "ender0" and "ender1" share a role
 	i := len(name)
@@ -902,12 +1029,14 @@ func roleOf(name string) string {
 	return name[:i]
 }
 
+//go:norace
 func (s *Sim) traceEv(e TraceEv) {
 	if len(s.Trace) < s.TraceCap {
 		s.Trace = append(s.Trace, e)
 	}
 }
 
+//go:norace
 func (s *Sim) describeAlive() string {
 	out := ""
 	for _, t := range s.tasks {
@@ -917,11 +1046,11 @@ func (s *Sim) describeAlive() string {
 		st := [...]string{"running", "parked", "blocked", "done"}[t.state]
 		out += fmt.Sprintf(" %s:%s@%d", t.Name, st, t.point)
 		if t.state == stParked && (t.wk == wkMutexW || t.wk == wkMutexR) {
-			if sh := s.mutexes[t.want]; sh != nil {
+			if sh := s.mutexes.get(up(t.want)); sh != nil {
 				if sh.writer != nil {
 					out += fmt.Sprintf("(waits for a mutex held by %s, which is %s)", sh.writer.Name, [...]string{"running", "parked", "blocked", "done"}[sh.writer.state])
 				}
-				for rd := range sh.readers {
+				for _, rd := range sh.readers.t {
 					out += fmt.Sprintf("(waits for a mutex read-held by %s)", rd.Name)
 				}
 			}
@@ -931,13 +1060,17 @@ func (s *Sim) describeAlive() string {
 }
 
 // Signature returns the hash of the sequence of context switches of this run.
+//
+//go:norace
 func (s *Sim) Signature() uint64 { return s.sig }
 
 // Finish ends the simulation: every parked task is made to exit (runtime.Goexit, so deferred calls
 // run), tasks that wake up later exit at their next instrumented point. Must be called by root.
+//
+//go:norace
 func (s *Sim) Finish() {
 	s.aborting.Store(true)
-	s.mu.Lock()
+	s.lock()
 	for _, t := range s.tasks {
 		if t.state == stParked {
 			t.state = stBlocked
@@ -946,18 +1079,22 @@ func (s *Sim) Finish() {
 	}
 	s.cur = nil
 	s.curG.Store(0)
-	s.mu.Unlock()
+	s.unlock()
 }
 
 // Release detaches the finished simulation from the process.
+//
+//go:norace
 func (s *Sim) Release() {
 	active.CompareAndSwap(s, nil)
 }
 
 // TaskNames lists the tasks of the run (for reports).
+//
+//go:norace
 func (s *Sim) TaskNames() []string {
-	s.mu.Lock()
-	defer s.mu.Unlock()
+	s.lock()
+	defer s.unlock()
 	var out []string
 	for _, t := range s.tasks {
 		out = append(out, t.Name)
@@ -966,6 +1103,8 @@ func (s *Sim) TaskNames() []string {
 }
 
 // CurrentTask returns the name of the calling task ("root" for the scheduler goroutine, "" if unknown).
+//
+//go:norace
 func (s *Sim) CurrentTask() string {
 	g := getg()
 	if g == s.rootG {
@@ -974,9 +1113,9 @@ func (s *Sim) CurrentTask() string {
 	if s.curG.Load() == g {
 		return s.cur.Name
 	}
-	s.mu.Lock()
-	defer s.mu.Unlock()
-	if t := s.byG[g]; t != nil {
+	s.lock()
+	defer s.unlock()
+	if t := s.byG.get(g); t != nil {
 		return t.Name
 	}
 	return ""
